@@ -55,8 +55,10 @@ def showAnswer : Option Bytes → String
 def showScan (r : Run) : String :=
   if r.isEmpty then "empty" else joinWith "," (r.map fun e => toHex e.key ++ ":" ++ toHex e.val)
 
+/-- a deviation of the modelled code from the spec can only be the open finding D37 (second rescale of instances that
+hold table entries outside their own range); anything else is reported by the harness as a violation -/
 def withSpec (model spec : String) : String :=
-  if model == spec then model else model ++ " #spec " ++ spec
+  if model == spec then model else model ++ " #spec " ++ spec ++ " #kf D37"
 
 def specGet (m : List Entry) (k : Bytes) : Option Entry := Run.lookup m k
 
@@ -147,16 +149,16 @@ def step (st : St) (ws : List String) : St × String :=
     (setInst st ⟨natOr id, r, s, spec⟩, s!"ok seq={s.seq}")
   | ["get", id, k] =>
     match findInst st (natOr id) with
-    | some i => (st, withSpec (showAnswer (answer (get i.s (hexOr k)))) (showAnswer (answer (specGet i.spec (hexOr k)))))
+    | some i => (st, withSpec (showAnswer (answer (getR i.s (hexOr k)))) (showAnswer (answer (specGet i.spec (hexOr k)))))
     | none => (st, "no-instance")
   | ["scan", id, p] =>
     match findInst st (natOr id) with
-    | some i => (st, withSpec (showScan (scan i.s (hexOr p))) (showScan (specScan i.spec (hexOr p))))
+    | some i => (st, withSpec (showScan (scanR i.s (hexOr p))) (showScan (specScan i.spec (hexOr p))))
     | none => (st, "no-instance")
   | ["scanown", id] =>
     match findInst st (natOr id) with
     | some i =>
-      (st, withSpec (showScan ((scan i.s []).filter (fun e => Keys.ownsKey i.range e.key))) (showScan (specScan i.spec [])))
+      (st, withSpec (showScan ((scanR i.s []).filter (fun e => Keys.ownsKey i.range e.key))) (showScan (specScan i.spec [])))
     | none => (st, "no-instance")
   | _ => (st, "bad-op")
 
